@@ -55,6 +55,20 @@ def make_cases(rng, tier):
             rb = ("B", None, 5, block([assign(("var", "v"), "=", ("math", slot())), assign(("var", "w"), "=", ("math", mvar("h.I64")))], ret(emath(mvar("w")))))
             add([ra, rb], [hs(), inj_val("u", tv_int("u8", 200))], twice=True)
     add([("A", None, 9, block([assign(("var", "v"), "=", ("math", slot())), assign(("var", "v"), "+=", ("math", mint(1)))], ret(emath(mvar("h.I64")))))], [hs()])
+    # a rule whose ONLY bindings sit in an else branch (one or two levels down), or in an else-if branch, next to a rule that binds
+    # nothing at all and reads that name: however the engine decides whether a rule needs a map of its own, the reader sees nothing
+    false_ = lambda: emath(matom(const(kbool(False))))
+    true_ = lambda: emath(matom(const(kbool(True))))
+    mark1 = lambda: scall(call("func", "Mark", [("const", kint(1))]))
+    bind = lambda: block([assign(("var", "quota"), "=", ("math", mint(7)))])
+    shapes = [sif(false_(), block([mark1()]), [], bind()),
+              sif(false_(), block([mark1()]), [], block([sif(false_(), block([mark1()]), [], bind())])),
+              sif(false_(), block([mark1()]), [(true_(), bind())], None),
+              sif(true_(), block([sif(false_(), block([]), [], bind())]), [], None)]
+    for sh in shapes:
+        for (sa, sb) in ((9, 5), (2, 5)):
+            import copy
+            add([("grant", None, sa, block([copy.deepcopy(sh)], ret(emath(mvar("quota"))))), ("report", None, sb, block([], ret(emath(mvar("quota")))))], [inj_func("Mark")], twice=True)
     # OVERLAPPING executions (concurrent model, rule A held at a gate between the write and the read of its local): rule B binds
     # the same local name meanwhile — from a struct field, a nested field, a slice element (addressable sources), a constant
     gate = lambda: scall(call("func", "Gate", [("const", kstr("gate"))]))
